@@ -70,6 +70,8 @@ def enumerate_cases(tier):
                 h0 = hash((n, k, repr(specs)))
                 base = {"n": n, "k": k, "specs": list(specs), "cls": None, "split": None, "resolver": bool(k < n and (h0 // 5) % 2)}
                 yield base
+                if any(sp is not None for sp in specs[:k]) and (tier != "quick" or (h0 // 31) % 2 == 0):
+                    yield dict(base, annotated=True)  # field-level order given through Annotated[int, order(...)] (data_model.md)
                 if k < n and (h0 // 29) % 2 == 0:  # serialized methods under an alias different from their name
                     yield dict(base, malias=list(range(k, n)))
                 # class-level overrides: one element overridden / list form; inheritance split
@@ -127,6 +129,8 @@ def strategy_(draw, tier):
     if not acyclic(effective_specs(case)):
         case["cls"] = None
         case.pop("cls_base", None)
+    if chance(draw, 0.3):
+        case["annotated"] = True
     return case
 
 
@@ -155,6 +159,8 @@ def render(case) -> str:
 
     def field_line(i):
         e = spec_expr(case["specs"][i], nm)
+        if e and case.get("annotated"):
+            return f"    {nm[i]}: Annotated[int, {e}] = {i}"
         return f"    {nm[i]}: int = field(default={i}" + (f", metadata={e}" if e else "") + ")"
 
     def method_lines(i):
